@@ -91,7 +91,7 @@ class Session:
         self.stats.add_time('z3-%s' % z3.get_version_string(), dt)
         res = str(r)
         model = s.model() if res == 'sat' else None
-        if self.diff_every and self.stats.queries % self.diff_every == 1 and res in ('sat', 'unsat'):
+        if self.diff_every and self.stats.queries % self.diff_every == 1 and res in ('sat', 'unsat') and dt < 2.0:
             self._diff(s, res, label)
         return res, model
 
@@ -105,7 +105,7 @@ class Session:
             path = f.name
         try:
             t = time.time()
-            p = subprocess.run([Z3_OLD, '-T:20', path], capture_output=True, text=True, timeout=40)
+            p = subprocess.run([Z3_OLD, '-T:6', path], capture_output=True, text=True, timeout=12)
             self.stats.add_time('z3-4.8.12(bin)', time.time() - t)
             out = p.stdout.strip().splitlines()
             if any('(error' in l for l in out):
